@@ -178,6 +178,12 @@ pub struct CfModel {
     pub classes: Classes,
     pub mode: Mode,
     pub with_delete: bool,
+    /// property whose violations are preferred when several invariants fail at once
+    pub focus: &'static str,
+    /// true: any violated oracle ends the branch (single-property runs); false: only `focus` does
+    pub strict: bool,
+    /// violations of other properties seen while exploring (not verdicts of this run)
+    pub other: std::sync::atomic::AtomicU64,
 }
 
 fn viol(p: &str, sig: String, msg: String) -> Violation {
@@ -202,7 +208,7 @@ pub fn raw_key(f: &Cf) -> Vec<u8> {
 impl CfModel {
     pub fn new(cfg: CfCfg, mode: Mode, with_delete: bool) -> Result<Self, String> {
         let classes = compute_classes(&cfg)?;
-        Ok(Self { cfg, classes, mode, with_delete })
+        Ok(Self { cfg, classes, mode, with_delete, focus: if mode == Mode::Elements { "C01" } else { "C14" }, strict: false, other: std::sync::atomic::AtomicU64::new(0) })
     }
     pub fn init(&self) -> St {
         let n = match self.mode { Mode::Classes => self.classes.n_classes, Mode::Elements => self.cfg.n_elements() };
@@ -242,19 +248,22 @@ impl CfModel {
         let n = self.cfg.n_elements();
         (f.len(), f.is_empty(), (0..n).map(|e| f.query(&self.cfg.key_of(e))).collect(), (0..n).map(|e| self.deletable(f, e)).collect())
     }
-    pub fn check_state(&self, s: &St, ctx: &str) -> Result<(), Violation> {
+    /// all state invariants against the reference; when several fail, the violation of the
+    /// property this run decides (`focus`) is reported
+    pub fn check_state_all(&self, s: &St, ctx: &str) -> Vec<Violation> {
+        let mut vs: Vec<Violation> = vec![];
         let cfg = &self.cfg;
         let tag = |p: &str| if s.tainted { "C12".to_string() } else { p.to_string() };
         let total = self.total(s);
         if s.f.len() != total {
-            return Err(viol(&tag("C14"), format!("{} len", cfg.sig()), format!("{}: len() = {} but successful inserts - deletes = {}", ctx, s.f.len(), total)));
+            vs.push(viol(&tag("C14"), format!("{} len", cfg.sig()), format!("{}: len() = {} but successful inserts - deletes = {}", ctx, s.f.len(), total)));
         }
         if s.f.is_empty() != (total == 0) {
-            return Err(viol(&tag("C19"), format!("{} is_empty", cfg.sig()), format!("{}: is_empty() = {} with {} copies stored", ctx, s.f.is_empty(), total)));
+            vs.push(viol(&tag("C19"), format!("{} is_empty", cfg.sig()), format!("{}: is_empty() = {} with {} copies stored", ctx, s.f.is_empty(), total)));
         }
         let nz = s.f.verif_table().iter().filter(|&&x| x != 0).count();
         if nz != total {
-            return Err(viol(&tag("C14"), format!("{} table occupancy", cfg.sig()), format!("{}: {} occupied slots but {} copies in the reference", ctx, nz, total)));
+            vs.push(viol(&tag("C14"), format!("{} table occupancy", cfg.sig()), format!("{}: {} occupied slots but {} copies in the reference", ctx, nz, total)));
         }
         for e in 0..cfg.n_elements() {
             let c = self.classes.class_of[e];
@@ -264,16 +273,25 @@ impl CfModel {
                 let own = self.mode == Mode::Elements && s.cnt[e] > 0;
                 let p = if !got && own { "C01" } else { "C14" };
                 let kind = if got { "phantom" } else { "false-negative" };
-                return Err(viol(&tag(p), format!("{} query {}", cfg.sig(), kind), format!("{}: query(element {} = fp {} bucket {}) = {} but reference holds {} copies of its class", ctx, e, cfg.fps[cfg.elem(e).0], cfg.elem(e).1, got, want)));
+                vs.push(viol(&tag(p), format!("{} query {}", cfg.sig(), kind), format!("{}: query(element {} = fp {} bucket {}) = {} but reference holds {} copies of its class", ctx, e, cfg.fps[cfg.elem(e).0], cfg.elem(e).1, got, want)));
             }
             if self.classes.rep[c] == e {
                 let d = self.deletable(&s.f, e);
                 if d != want {
-                    return Err(viol(&tag("C14"), format!("{} deletable copies", cfg.sig()), format!("{}: element {} can be deleted {} times but the reference holds {} copies", ctx, e, d, want)));
+                    vs.push(viol(&tag("C14"), format!("{} deletable copies", cfg.sig()), format!("{}: element {} can be deleted {} times but the reference holds {} copies", ctx, e, d, want)));
                 }
             }
         }
-        Ok(())
+        vs
+    }
+    /// first violated invariant, preferring the focus property
+    pub fn check_state(&self, s: &St, ctx: &str) -> Result<(), Violation> {
+        let mut vs = self.check_state_all(s, ctx);
+        if vs.is_empty() {
+            return Ok(());
+        }
+        let i = vs.iter().position(|v| v.property == self.focus).unwrap_or(0);
+        Err(vs.swap_remove(i))
     }
 }
 
@@ -314,6 +332,10 @@ impl Model for CfModel {
     fn step(&self, s: &mut St, op: &Op) -> Result<u32, Violation> {
         let cfg = &self.cfg;
         verif_kick_budget(cfg.budget);
+        // every oracle is evaluated; a violation of the property this run decides (`focus`) ends
+        // the branch, violations of other properties are counted and exploration continues
+        let mut vs: Vec<Violation> = vec![];
+        let kind;
         match *op {
             Op::Insert(e) => {
                 let before = self.obs(&s.f);
@@ -321,33 +343,32 @@ impl Model for CfModel {
                 let res = mccore::panics::catch(|| s.f.insert(&cfg.key_of(e)));
                 let ctx = format!("insert(element {} = fp {} bucket {})", e, cfg.fps[cfg.elem(e).0], cfg.elem(e).1);
                 let idx = match self.mode { Mode::Classes => self.classes.class_of[e], Mode::Elements => e };
-                let kind = match res {
+                match res {
                     Err(p) => return Err(viol("C14", format!("{} insert panics", cfg.sig()), format!("{} panicked: {}", ctx, p))),
                     Ok(Ok(b)) => {
                         s.cnt[idx] += 1;
                         s.hist.push((0, e as u16));
-                        self.check_state(s, &format!("after {}", ctx))?;
+                        vs.extend(self.check_state_all(s, &format!("after {}", ctx)));
                         if !b {
-                            return Err(viol("C14", format!("{} insert Ok(false)", cfg.sig()), format!("{} returned Ok(false); every successful insert is documented to report Ok(true)", ctx)));
+                            vs.push(viol("C14", format!("{} insert Ok(false)", cfg.sig()), format!("{} returned Ok(false); every successful insert is documented to report Ok(true)", ctx)));
                         }
-                        0
+                        kind = 0;
                     }
                     Ok(Err(_)) => {
                         if before.0 < cfg.bucketsize {
-                            return Err(viol("C14", format!("{} insert Err below bucketsize", cfg.sig()), format!("{} failed with only {} elements stored (bucketsize {})", ctx, before.0, cfg.bucketsize)));
+                            vs.push(viol("C14", format!("{} insert Err below bucketsize", cfg.sig()), format!("{} failed with only {} elements stored (bucketsize {})", ctx, before.0, cfg.bucketsize)));
                         }
                         let after = self.obs(&s.f);
                         if after != before {
-                            return Err(viol("C12", format!("{} failed insert changes observations", cfg.sig()), format!("{} failed but observations changed: {:?} -> {:?}", ctx, before, after)));
+                            vs.push(viol("C12", format!("{} failed insert changes observations", cfg.sig()), format!("{} failed but observations changed: {:?} -> {:?}", ctx, before, after)));
                         }
                         if raw_key(&s.f) != before_key {
                             s.tainted = true;
                         }
-                        self.check_state(s, &format!("after failed {}", ctx))?;
-                        2
+                        vs.extend(self.check_state_all(s, &format!("after failed {}", ctx)));
+                        kind = 2;
                     }
-                };
-                Ok(kind)
+                }
             }
             Op::Delete(e) => {
                 let c = self.classes.class_of[e];
@@ -355,24 +376,38 @@ impl Model for CfModel {
                 let res = mccore::panics::catch(|| s.f.delete(&cfg.key_of(e)));
                 let ctx = format!("delete(element {} = fp {} bucket {})", e, cfg.fps[cfg.elem(e).0], cfg.elem(e).1);
                 match res {
-                    Err(p) => Err(viol("C14", format!("{} delete panics", cfg.sig()), format!("{} panicked: {}", ctx, p))),
+                    Err(p) => return Err(viol("C14", format!("{} delete panics", cfg.sig()), format!("{} panicked: {}", ctx, p))),
                     Ok(r) => {
                         if r != (have > 0) {
-                            return Err(viol("C14", format!("{} delete result", cfg.sig()), format!("{} returned {} but the reference holds {} copies of its class", ctx, r, have)));
+                            vs.push(viol("C14", format!("{} delete result", cfg.sig()), format!("{} returned {} but the reference holds {} copies of its class", ctx, r, have)));
                         }
-                        if r {
+                        if r && have > 0 {
                             match self.mode {
                                 Mode::Classes => s.cnt[c] -= 1,
-                                Mode::Elements => s.cnt[e] -= 1,
+                                Mode::Elements => {
+                                    if s.cnt[e] > 0 {
+                                        s.cnt[e] -= 1
+                                    }
+                                }
                             }
                             s.hist.push((1, e as u16));
                         }
-                        self.check_state(s, &format!("after {}", ctx))?;
-                        Ok(if r { 3 } else { 4 })
+                        vs.extend(self.check_state_all(s, &format!("after {}", ctx)));
+                        kind = if r { 3 } else { 4 };
                     }
                 }
             }
         }
+        if let Some(i) = vs.iter().position(|v| v.property == self.focus) {
+            return Err(vs.swap_remove(i));
+        }
+        if !vs.is_empty() {
+            self.other.fetch_add(vs.len() as u64, std::sync::atomic::Ordering::Relaxed);
+            if self.strict {
+                return Err(vs.swap_remove(0));
+            }
+        }
+        Ok(kind)
     }
 }
 
